@@ -11,6 +11,7 @@ import (
 	"github.com/gofiber/fiber/v3"
 	fcache "github.com/gofiber/fiber/v3/middleware/cache"
 	"github.com/gofiber/utils/v2"
+	"github.com/valyala/fasthttp"
 
 	"verifharness/internal/drive"
 	"verifharness/internal/ev"
@@ -43,11 +44,16 @@ type conf struct {
 	// X-Inv header is only sent when the storage holds a live entry for the key at that moment
 	// (keeps histories clear of the invalidator-on-absent-entry defect so that they reach further).
 	Polite bool
+	// ReuseCtx is a workload switch as well: every request of the (sequential) history is served
+	// through ONE fasthttp.RequestCtx whose response is Reset() before each request, like the
+	// connection serve loop does, so response header buffers are recycled between requests and
+	// anything the cache kept by reference is overwritten by the next response.
+	ReuseCtx bool
 }
 
 func (cf conf) String() string {
-	return fmt.Sprintf("exp=%d expgen=%v inv=%v next=%v max=%d hdr=%v keygen=%d methods=%v vstore=%v cc=%v polite=%v",
-		cf.Exp, cf.ExpGen, cf.Inv, cf.Next, cf.MaxBytes, cf.StoreHdr, cf.KeyGen, cf.Methods, cf.VStore, cf.CacheCtl, cf.Polite)
+	return fmt.Sprintf("exp=%d expgen=%v inv=%v next=%v max=%d hdr=%v keygen=%d methods=%v vstore=%v cc=%v polite=%v reusectx=%v",
+		cf.Exp, cf.ExpGen, cf.Inv, cf.Next, cf.MaxBytes, cf.StoreHdr, cf.KeyGen, cf.Methods, cf.VStore, cf.CacheCtl, cf.Polite, cf.ReuseCtx)
 }
 
 func (cf conf) backend() string {
@@ -77,6 +83,11 @@ type rq struct {
 	Key     string // logical key name
 	NoCache bool
 	NoStore bool
+	CC      string // Cache-Control header value as sent ("" = derived from NoCache / NoStore)
+	// CCLoose: the directive in CC is spelled in upper / mixed case. RFC 9111 compares directives
+	// case-insensitively, the middleware's documentation only shows the lower-case spelling: such
+	// requests carry no expectation (NoCache / NoStore stay false), what happens is only counted.
+	CCLoose string
 	Inv     bool // carries X-Inv: 1
 	Skip    bool // carries X-Skip: 1
 	Status  int  // what the origin answers if reached
@@ -109,6 +120,9 @@ func (q *rq) spec() string {
 	}
 	if q.NoStore {
 		s += " no-store"
+	}
+	if q.CC != "" {
+		s += fmt.Sprintf(" cc=%q", q.CC)
 	}
 	if q.Inv {
 		s += " inv"
@@ -202,9 +216,10 @@ type rig struct {
 	sigs       map[string]bool // signatures already reported in this rig (one record per rig)
 	boundMax   int             // largest vstore "_body" sum seen
 	boundOp    string
-	invMu      map[string][]*rq // mkey -> requests for which the invalidator returned true
-	extra      map[string]any   // scenario / schedule, merged into every violation detail
-	concurrent bool             // requests overlapped at some point in this rig's life
+	invMu      map[string][]*rq     // mkey -> requests for which the invalidator returned true
+	fctx       *fasthttp.RequestCtx // the one reused context (conf.ReuseCtx)
+	extra      map[string]any       // scenario / schedule, merged into every violation detail
+	concurrent bool                 // requests overlapped at some point in this rig's life
 }
 
 func (g *rig) now() time.Duration {
@@ -340,9 +355,11 @@ func (g *rig) origin(c fiber.Ctx) error {
 		x.Status = 500
 	}
 	x.Body = mkBody(id, q.Size)
-	x.Ctype = fmt.Sprintf("application/x-e%06d", id)
+	// values of different lengths from execution to execution: a value kept by reference in a
+	// recycled header buffer shows up truncated or with a foreign tail
+	x.Ctype = fmt.Sprintf("application/x-e%06d%s", id, strings.Repeat("+v", (id*3)%5))
 	if q.Enc {
-		x.Cenc = fmt.Sprintf("x-enc-%06d", id)
+		x.Cenc = []string{"gzip", "deflate", "br", "zstd", "identity", "compress"}[id%6] + strings.Repeat("x", (id*5)%4) + "-" + strconv.Itoa(id)
 	}
 	x.Hdr = map[string]string{"X-U1": fmt.Sprintf("u1-%06d", id), "X-U2": fmt.Sprintf("u2-%06d-%s", id, q.Key)}
 	x.ExpSec = g.cf.Exp
@@ -392,6 +409,8 @@ func (g *rig) build(q *rq) *drive.Req {
 	}
 	dr.Hdr = append(dr.Hdr, drive.H{K: "X-Rq", V: strconv.Itoa(q.ID)})
 	switch {
+	case q.CC != "":
+		dr.Hdr = append(dr.Hdr, drive.H{K: "Cache-Control", V: q.CC})
 	case q.NoStore:
 		dr.Hdr = append(dr.Hdr, drive.H{K: "Cache-Control", V: "no-store"})
 	case q.NoCache:
@@ -455,7 +474,16 @@ func (g *rig) do(q *rq) {
 				q.Panic = fmt.Sprintf("%v\n%s", r, debug.Stack())
 			}
 		}()
-		q.Resp = g.d.Do(dr)
+		if g.cf.ReuseCtx && g.yield == nil && !g.concurrent {
+			if g.fctx == nil {
+				g.fctx = &fasthttp.RequestCtx{}
+			}
+			g.fctx.Response.Reset()
+			q.Resp = g.d.DoCtx(g.fctx, dr)
+			g.e.Stat("requests-through-reused-ctx", 1)
+		} else {
+			q.Resp = g.d.Do(dr)
+		}
 	}()
 	g.mu.Lock()
 	g.clk++
